@@ -3,6 +3,7 @@ import Qryn.Proofs.InternalOpt
 import Qryn.Proofs.InternalJsonPath
 import Qryn.Proofs.InternalParams
 import Qryn.Proofs.InternalCompose
+import Qryn.Read.JsonPathSyntax
 import Qryn.Gen.InternalPlanner
 import Qryn.Gen.InternalParams
 import Qryn.Gen.PlannerGlobals
@@ -801,6 +802,18 @@ example : MetricOk exEnv ⟨0, 120, 0, 3000, 2000⟩ (exPlan (some (.sum, none, 
 
 example : ((runPlan exEnv ⟨0, 120, 0, 3000, 2000⟩ (exPlan none) [[exE1], [], [exE2]]).flatten.map
     (fun e => (e.labels.get [112], e.val))) = [([50], 1), ([49], 1)] := by decide +kernel
+
+/-- `JsonPathParamToTypedArray` as modelled (`Read.parsePath`): `x.z[0]`, `["k 1"]`, `a b` (the dot is optional), and
+    the errors: empty text, trailing dot, an unclosed bracket; `a.1` (a float to the Go scanner) is outside the fragment -/
+example : parsePath [120, 46, 122, 91, 48, 93] = .ok [.key [120], .key [122], .idx 0] ∧
+    parsePath [91, 34, 107, 32, 49, 34, 93] = .ok [.key [107, 32, 49]] ∧
+    parsePath [97, 32, 98] = .ok [.key [97], .key [98]] ∧
+    parsePath [] = .err ∧ parsePath [97, 46] = .err ∧ parsePath [97, 91] = .err ∧
+    parsePath [97, 46, 49] = .outside := by decide
+
+/-- the parameters as `Process` gets them: source order kept, an unparsable path fails the stage -/
+example : planParams [([112], [97]), ([113], [98, 91, 49, 93])] = some (some [([112], [.key [97]]), ([113], [.key [98], .idx 1])]) ∧
+    planParams [([112], [97]), ([113], [91])] = some none := by decide
 
 end examples
 
